@@ -45,6 +45,11 @@ func main() {
 				*tier = flag.Arg(i + 1)
 				i++
 			}
+		case "--repo", "-repo":
+			if i+1 < flag.NArg() {
+				*repo = flag.Arg(i + 1)
+				i++
+			}
 		case "-v":
 			*verbose = true
 		case "--keep":
